@@ -256,3 +256,24 @@ def _backoff_attempt(eng, fr, st, name, args, rtypes, ins):
         if not isinstance(args[0].cell, int):
             st.assume(st.ghost[k] >= 0)
     return [(st, z3.ToReal(st.ghost[k]))]
+
+
+@model("fmt.Sprintf", "fmt.Sprint")
+def _sprintf(eng, fr, st, name, args, rtypes, ins):
+    """deterministic: the same format and arguments give the same string"""
+    ls = []
+    try:
+        for a in args:
+            if isinstance(a, SliceV):
+                if isinstance(a.seq, SeqLit):
+                    for it in a.seq.items:
+                        ls.extend(leaves(it))
+                else:
+                    return NotImplemented
+            else:
+                ls.extend(leaves(a))
+    except TypeError:
+        return NotImplemented
+    if not ls:
+        return NotImplemented
+    return [(st, uf(name + "/%d" % len(ls), [l.sort() for l in ls], Str)(*ls))]
